@@ -16,7 +16,8 @@ open(dst + '/notes.md', 'w').write(notes)
 ported = patch != open(src + '/patch.diff').read()
 # confirmation log
 conf = ''
-for lg in ('/tmp/confirm.log', '/tmp/confirm2.log', '/tmp/confirm3.log', '/tmp/confirm4.log', '/tmp/confirm5.log', '/tmp/confirm6.log'):
+import glob
+for lg in sorted(glob.glob('/tmp/confirm*.log')):
     if os.path.exists(lg):
         t = open(lg).read()
         mm = re.search(r'######## %s\n(.*?)(?=######## |ALLDONE|\Z)' % re.escape(name), t, re.S)
